@@ -105,7 +105,8 @@ let exclusion_label (toks : token list) : string =
   let rec go = function
     | a :: b :: c :: r -> if identlike a && int_of_n b.ttype = 60 && int_of_n c.ttype = 9 then true else go (b :: c :: r)
     | _ -> false in
-  if go toks then " [mr_exclusion_after_unquantified_variable]" else ""
+  (* since the repair of F69 the shape is parsed as written: no label (a failure here is reported unlabelled) *)
+  if false && go toks then " [mr_exclusion_after_unquantified_variable]" else ""
 
 let split2 (s : string) (c : char) : string * string =
   match String.index_opt s c with
